@@ -61,6 +61,13 @@ theorem table_extensions_suffix_free :
     compressors.all (fun c => c.ext != "" && compressors.all (fun c' =>
       !(c.ext.toList.isSuffixOf c'.ext.toList) || c.name == c'.name)) = true := by decide
 
+/-- The five extensions `dump`'s docstring promises ("The compression method corresponding to one of the
+supported filename extensions ('.z', '.gz', '.bz2', '.xz' or '.lzma') will be used automatically") select
+the compressor of that name. -/
+theorem table_documented_extensions :
+    [("zlib", ".z"), ("gzip", ".gz"), ("bz2", ".bz2"), ("xz", ".xz"), ("lzma", ".lzma")].all
+      (fun ne => (lookup ne.1).map (·.ext) == some ne.2) = true := by decide
+
 /-- The model's `max_prefix_len` is the number the code computes. -/
 theorem table_max_prefix_len : maxPrefixLen = prefixesMaxLen := by decide
 
